@@ -377,13 +377,12 @@ class RemoveDeadCodeTransformer(Transformer):
         if self.use_simplify:
             condition = simplify(condition)
 
-        if condition == 'True':
-            return body
+        # Only prune on literal conditions: a string comparison would also
+        # match logical variables that happen to be named ``true``/``false``
+        if isinstance(condition, sym.LogicLiteral):
+            return body if condition.value else else_body
 
-        if condition == 'False':
-            return else_body
-
-        has_elseif = o.has_elseif and else_body and isinstance(else_body[0], ir.Conditional)
+        has_elseif = bool(o.has_elseif and else_body and isinstance(else_body[0], ir.Conditional))
         return self._rebuild(o, tuple((condition,) + (body,) + (else_body,)), has_elseif=has_elseif)
 
     def visit_MultiConditional(self, o, **kwargs):
@@ -401,7 +400,7 @@ class RemoveDeadCodeTransformer(Transformer):
                 if symbolic_op(expr, op.eq, v):
                     return body
 
-        if expr == 'False':
+        if isinstance(expr, sym.LogicLiteral) and not expr.value:
             # Simplify to default if always false
             return else_body
 
